@@ -165,7 +165,7 @@ def kb_after_bool(E, base):
 def kb_number_arg(E, base):
     """x2DEC given a number: its decimal rendering is read in the base (digits beyond the base or negative -> #NUM!)"""
     n = E.int("n")
-    E.assume((n >= -3) & (n <= 1000000))
+    E.assume((n >= -3) & (n <= 99999))
     with _patch():
         r = X2D[base](n)
         if n < 0:
